@@ -4,7 +4,7 @@
    labels cp1252-encodable, NUL-free and shorter than their field; integers in range; enum codes
    legal; every count equal to the length of the list it announces; every missing frame canonical. *)
 From Model Require Import Base Fmt Segments Blocks.
-From Proofs Require Import BaseFacts FmtFacts SegFacts.
+From Proofs Require Import BaseFacts FmtFacts SegFacts GridFacts.
 Open Scope Z_scope.
 
 (* decode (encode b ++ anything) = (b, anything), for every block type and format *)
@@ -41,6 +41,19 @@ Theorem C01_gaps_preserved : forall fs,
   gaps_canonical fs -> frames_of_wire (length fs) (frames_to_wire fs) = fs.
 Proof. exact frames_roundtrip. Qed.
 Print Assumptions C01_gaps_preserved.
+
+(* 2D data keeps its point counts camera-major and its points frame-major; the two orders are inverse
+   permutations on EVERY frames x cameras grid, and the grid survives the view to the wire form: the
+   view conditions inside wfb are satisfied by all rectangular grids, they restrict nothing *)
+Theorem C01_d2_count_table_orders : forall C F (M : list (list V)), rect F C M ->
+  to_frame_major C F (to_camera_major C F (concat M)) = concat M.
+Proof. intros C F M. apply frame_camera_major_inverse. Qed.
+Print Assumptions C01_d2_count_table_orders.
+
+Theorem C01_d2_grid_view : forall C F (frames : list (list V)), rect F C frames ->
+  d2_from C F (d2_to C F (VL (map (fun fr => VL fr) frames))) = VL (map (fun fr => VL fr) frames).
+Proof. exact d2_view_roundtrip. Qed.
+Print Assumptions C01_d2_grid_view.
 
 (* non-vacuity: one concrete valid block per layout family *)
 Example C01_example_d3 :
